@@ -39,7 +39,7 @@ def shards(tier):
             out.append(("enc", k, lo, min(lo + 76, 301)))
     for lo in range(0, 4096, 512):
         out.append(("ctr", 0, lo, lo + 512))
-    out.append(("session", 1, 0, 4200))
+    out.append(("session", 1, 0, 70000))
     for r in range(16):
         out.append(("tamperB", r % nk, r, 0))
     for r in (range(16) if tier == "thorough" else (0, 6, 10, 15)):
